@@ -408,7 +408,8 @@ fn check_mutant(base: &Base, fam: Family, mutant: &str, layer: Layer, acc: &mut 
         acc.violate(
             key,
             format!("{} mutant presented to the {} layer: {}", fam.name(), layer.name(), why),
-            json!({"issue": base.case, "issued_token": base.token, "family": fam.name(), "presentation": pres}),
+            json!({"issue": base.case, "issued_token": base.token, "family": fam.name(), "presentation": pres,
+                   "unit_test": crate::cases::unit_test_for(&pres, "r.is_err()", "a mutant of an authentic token: must be rejected (and with an authentication / format error)")}),
         );
     }
 }
